@@ -895,6 +895,8 @@ def _cls(s):
             out.append("C")
         elif ch.isspace():
             out.append("?")          # other Unicode whitespace: outside the class abstraction
+        elif ch in "uU":
+            out.append("U")          # the Croatian "at" of RE_SANITIZE_CROATIAN (spec/Sanitize.tla: CroatStep)
         elif ch.isalpha():
             out.append("L")
         else:
@@ -924,9 +926,8 @@ def call_c18(case):
 
     def plain(s):
         low = s.lower()
-        if _re2.search(r"\d+\.\s?\d+\.\s?\d+\.", _re2.sub(r"[\t\n\r\xa0]", " ", s)):
-            return False          # the Croatian-date rule of sanitize_date is not part of the class model
-        return not any(x in low for x in ("г", "on:", " u", "»", "‎", "‏", "\xb7", "َ", "ُ", ",")) and "?" not in _cls(s) \
+        # (the Croatian-date rule of sanitize_date IS part of the class model: class "U", CroatStep)
+        return not any(x in low for x in ("г", "on:", "»", "‎", "‏", "\xb7", "َ", "ُ", ",")) and "?" not in _cls(s) \
             and not any(ch in s for ch in "’ʼʻ՚ꞌ′‵ʹ＇")
 
     base, exc0 = run(case["s"])
